@@ -61,9 +61,10 @@ partial def loop (tbl : Std.HashMap String Handler) (quiet : Bool) (hin hout : I
       -- the property's quantifier (it is where the property is known to fail; the theorems' `wf`
       -- excludes it only because they are the `_partial` forms), so there the predicate stays binding.
       let pred := v.pred || (!v.wf && v.kf.isNone)
-      match pred, v.corr, v.kf with
+      match pred, (v.corr || v.explained), v.kf with
       | false, true, some n =>
-        -- fails exactly as the known finding records: count, show only the first two per finding
+        -- fails exactly as the known finding records (same observation as the defective model, or
+        -- the handler's signature says the recorded defect explains it): count, show the first two
         let seen := match s.kfi.find? (fun (p : String × Nat) => p.1 == n) with | some p => p.2 | none => 0
         ({ s with kfi := bumpKf s.kfi n }, decide (seen < 2))
       | false, _, _ => ({ s with viol := s.viol + 1 }, true)
